@@ -9,7 +9,7 @@ from ..harness import RecState, Written, open_obj
 from ..index import AnalysisError
 from ..ndarr import NdArr
 from ..poly import Rat, apply_fn
-from ..values import Obj, Raised, Unknown, to_rat
+from ..values import Builtin, Obj, Raised, Unknown, to_rat
 
 LEVEL = "other"
 EXPLANATION = (
@@ -278,6 +278,57 @@ def _closed(ctx, shape):
         ctx.ob("R16.4", f"{q}.update[axes={axes},{orient}]{shape}", ok, "net flux == sum over active axes of (+last-face - first-face) sums of S_a*area_a; 'inward' negates", rec[0].fmt()[:220] if rec else rec, tot.fmt()[:220])
 
 
+def _closed_phasor_net(ctx):
+    """ClosedSurfacePhasorPoyntingFluxDetector.compute_net_flux: the net flux is the signed sum over the *active* axes
+    of the max-face minus the min-face sums of S_a times the face-area weights of that same axis a."""
+    from ..harness import stub_repo_calls
+
+    ix = ctx.index
+    q = "fdtdx.objects.detectors.poynting_flux.ClosedSurfacePhasorPoyntingFluxDetector"
+    ci = ix.cls(q)
+    m = ci.lookup_method("compute_net_flux")
+    ctx.unit(m.where())
+    shape = (2, 3, 2)
+    planes = [tuple(1 if k == a else n for k, n in enumerate(shape)) for a in range(3)]
+    areas = [arr(f"A{a}", planes[a]) for a in range(3)]
+
+    def spv(it_, a_, k_):
+        ph = a_[0]
+        tag = to_rat(ph.data[0]).atoms()
+        (t0,) = [x for x in tag if isinstance(x, tuple) and x and x[0] == "ph"]
+        axis, side = t0[1], t0[2]
+        pl = planes[axis]
+        return NdArr((1, 3) + pl, [Rat.atom(("S", axis, side, c) + p) for c in range(3) for p in itertools.product(*[range(n) for n in pl])])
+
+    for axes, orient, mode in itertools.product((None, (0, 1, 2), (2,), (1, 2), (0, 2), (1,)), ("outward", "inward"), ("continuous", "pulse")):
+        it = ctx.fresh_interp()
+        stub_repo_calls(it, {"_phasor_poynting_vector": spv})
+        state = {}
+        for a in range(3):
+            for side in ("min", "max"):
+                pl = planes[a]
+                state[f"phasor_axis{a}_{side}"] = NdArr((1, 1, 6) + pl, [Rat.atom(("ph", a, side, c) + p) for c in range(6) for p in itertools.product(*[range(n) for n in pl])])
+        act = (0, 1, 2) if axes is None else axes
+        det = Obj(ci, dict(name="box", _face_area_weights_per_axis=tuple(areas), _angular_frequencies=[Rat.atom("w0")], dtype="complex64", orientation=orient, scaling_mode=mode, axes=axes, grid_shape=shape, _resolve_active_axes=Builtin("_resolve_active_axes", lambda it_, a_, k_, _act=act: tuple(_act))), "box")
+        it.ext_overrides["np.zeros"] = lambda it_, a_, k_: NdArr((1,), [0])
+        try:
+            net = it.call_method(det, "compute_net_flux", state)
+        except Raised as r:
+            raise AnalysisError(f"compute_net_flux raises: {r}")
+        want = Rat.const(0)
+        for a in act:
+            pl = planes[a]
+            for side, sgn in (("max", 1), ("min", -1)):
+                for p in itertools.product(*[range(n) for n in pl]):
+                    want = want + sgn * Rat.atom(("S", a, side, a) + p) * to_rat(areas[a].data[_flat(pl, p)])
+        if orient == "inward":
+            want = -want
+        if mode == "continuous":
+            want = want / 2
+        got = to_rat(net.data[0]) if isinstance(net, NdArr) and len(net.data) == 1 else None
+        ctx.ob("R16.4", f"{q}.compute_net_flux[axes={axes},{orient},{mode}]", got is not None and got.equals(want), "net flux == sum over the active axes a of (max face - min face) sums of S_a times the face-area weights of axis a itself (not of the a-th entry of the active list); 'inward' negates, continuous mode halves", got.fmt()[:200] if got is not None else net, want.fmt()[:200])
+
+
 def _axis_tables(ctx):
     """propagation_axis: the fixed axis when given (0 included), else the unique size-one axis, else an error."""
     ix = ctx.index
@@ -349,6 +400,7 @@ def run(ctx):
     _axis_tables(ctx)
     _weights(ctx)
     _phasor_family_inverse(ctx)
+    _closed_phasor_net(ctx)
     if err is not None:
         raise AnalysisError(err)
     ctx.require_count("C16", len(ctx.obligations), 150)
